@@ -21,6 +21,7 @@ def outcomes(repo: Repo) -> List[Outcome]:
     k = repo.root
     if k not in _cache:
         ev = Evaluator(repo, MOD)
+        ev.fork_ifexp = True       # `x = a if c else b` is a path fork like an if statement
         fn = repo.func(MOD, "document_single_file")
         _cache[k] = ev.run_function(fn, {})
     return _cache[k]
@@ -196,10 +197,11 @@ def rule_title_terms(rep: Report, repo: Repo, r_base: str, r_opts: str, r_prefix
 def flat_join(t) -> Optional[List[Any]]:
     if t[0] == "call" and t[1] == glob("os.path.join"):
         out = []
-        for a in t[2]:
+        for i, a in enumerate(t[2]):
             sub = flat_join(a)
             out.extend(sub if sub is not None else [a])
-        return out
+        # os.path.join skips an empty component in the middle (join(a, '', b) == join(a, b)); a trailing '' adds a separator
+        return [c for i, c in enumerate(out) if not (c == const("") and 0 < i < len(out) - 1)]
     return None
 
 
